@@ -42,12 +42,13 @@ Cfg ==
                     \cup { [op |-> "range", lo |-> 65, hi |-> 91], [op |-> "range", lo |-> 233, hi |-> 14912], [op |-> "skip", n |-> 1], [op |-> "skip", n |-> 2],
                            [op |-> "charby", set |-> "alpha"], P("eoi") },
          unary |-> {"seq", "lookp", "lookn", "rep", "opt"},
-         sigma |-> {97, 65, 91, 123, 64, 96, 233, 201, 14912}]
+         sigma |-> {97, 65, 91, 123, 64, 96, 233, 201, 14912, 2309}]
     [] Slice = "until" ->       \* skip_until with 0..3 needles: empty needle, shared first bytes, multi-byte first character
         [leaves |-> { [op |-> "until", ss |-> ss] : ss \in UNION { [1..n -> {a, b, ab, none, e, <<233, 97>>, <<97, 97>>}] : n \in 0..3 } }
+                    \cup { [op |-> "until", ss |-> ss] : ss \in { <<e, <<252>>>>, <<<<252>>, e>>, <<e, <<252>>, <<223>>>>, <<<<252>>>> } }
                     \cup {Str(a), P("eoi")},
          unary |-> {"seq", "rule1"},
-         sigma |-> {97, 98, 233}]
+         sigma |-> {97, 98, 233, 224}]
 
 MkUn(o, p) ==
   CASE o = "lookp" -> [op |-> "look", pos |-> TRUE, p |-> p]
